@@ -185,6 +185,8 @@ def _tables():
         Resource("d", 0, Subsignal("x", Pins("4", dir="o")), Subsignal("y", PinsN("5 1", dir="i"))),   # y shares 1 with a
         Resource("e", 0, DiffPairs("6 7", "8 9", dir="i"), Clock(Period(MHz=10))),
         Resource("f", 0, Pins("7", dir="o")),                        # shares 7 with e.p
+        Resource("g", 0, Pins("9", dir="o")),                        # shares 9 with the NEGATIVE leg of e
+        Resource("h", 0, DiffPairs("10", "8", dir="o")),             # negative leg shares 8 with the negative leg of e
     ], [])
     t1 = ([
         Resource("led", 0, Pins("1 2", dir="o", conn=("pmod", 0))),
